@@ -64,6 +64,8 @@ fn execute(ctx: &Ctx, c: &Cfg) -> Run {
   }
   let mut sim = None;
   let mut reference = None;
+  // `--open`: a talkative desktop launcher comes first in PATH; whatever it prints must not reach imdl's own streams
+  let mut launcher = false;
   let sub: Vec<String> = match (c.scenario, c.fail) {
     ("create-stdout", false) => {
       // A payload of a few KiB whose last newline byte is followed by more than a kilobyte: 72 pieces of 64 bytes chosen so
@@ -128,6 +130,36 @@ fn execute(ctx: &Ctx, c: &Cfg) -> Run {
       sim = Some(s);
       vec!["torrent", "announce", "--input", "a.torrent"].into_iter().map(String::from).collect()
     }
+    ("announce-no-peers", false) => {
+      // a tracker that answers correctly with an empty peer list: nothing at all may be printed
+      let payload = vec![0, 0, 7, 8, 0, 0, 0, 0, 0, 0, 0, 0];
+      let s = Sim::start(false, vec![Resp::Correct(vec![1, 2, 3, 4, 5, 6, 7, 8])], vec![Resp::Correct(payload)]);
+      let info = B::dict(vec![("name", B::s("data")), ("piece length", B::Int(16384)), ("pieces", B::Bytes(vec![1; 20])), ("length", B::Int(5))]);
+      sb.write("a.torrent", &B::dict(vec![("info", info), ("announce", B::s(&format!("udp://127.0.0.1:{}/announce", s.addr.port())))]).encode());
+      sim = Some(s);
+      reference = Some(vec![]);
+      vec!["torrent", "announce", "--input", "a.torrent"].into_iter().map(String::from).collect()
+    }
+    ("announce-no-peers", true) => vec!["torrent", "announce", "--input", "bad.torrent"].into_iter().map(String::from).collect(),
+    ("link-open", false) => {
+      launcher = true;
+      let ih = sha1::Sha1::from(crate::bencode::find_span(&sample_torrent(), b"info").map(|(a, b)| sample_torrent()[a..b].to_vec()).unwrap()).digest().to_string();
+      reference = Some(format!("magnet:?xt=urn:btih:{ih}&dn=data&tr=http://t.example/a\n").into_bytes());
+      vec!["torrent", "link", "--input", "t.torrent", "--open"].into_iter().map(String::from).collect()
+    }
+    ("link-open", true) => {
+      launcher = true;
+      vec!["torrent", "link", "--input", "bad.torrent", "--open"].into_iter().map(String::from).collect()
+    }
+    ("create-open", false) => {
+      launcher = true;
+      reference = Some(vec![]);
+      vec!["torrent", "create", "--input", "data", "--output", "new.torrent", "--open"].into_iter().map(String::from).collect()
+    }
+    ("create-open", true) => {
+      launcher = true;
+      vec!["torrent", "create", "--input", "data", "--output", "t.torrent", "--open"].into_iter().map(String::from).collect()
+    }
     ("announce", true) => vec!["torrent", "announce", "--input", "t.torrent"].into_iter().map(String::from).collect(),
     ("piece-length", _) => vec!["torrent", "piece-length"].into_iter().map(String::from).collect(),
     ("completions", false) => vec!["completions", "--shell", "bash"].into_iter().map(String::from).collect(),
@@ -147,6 +179,16 @@ fn execute(ctx: &Ctx, c: &Cfg) -> Run {
     "TERM=dumb" => cmd = cmd.env("TERM", "dumb"),
     _ => cmd = cmd.env("TERM", "xterm-256color"),
   }
+  if launcher {
+    use std::os::unix::fs::PermissionsExt;
+    let script = "#!/bin/sh\necho launcher-chatter \"$@\"\necho launcher-noise >&2\nexit 0\n";
+    for name in ["xdg-open", "gio", "gnome-open", "kde-open", "wslview"] {
+      sb.write(&format!("bin/{name}"), script.as_bytes());
+      let _ = std::fs::set_permissions(sb.path(&format!("bin/{name}")), std::fs::Permissions::from_mode(0o755));
+    }
+    let path = format!("{}:{}", sb.path("bin").display(), std::env::var("PATH").unwrap_or_default());
+    cmd = cmd.env("PATH", &path);
+  }
   let out = cmd.run();
   if let Some(s) = sim {
     let _ = s.finish();
@@ -156,13 +198,13 @@ fn execute(ctx: &Ctx, c: &Cfg) -> Run {
 
 pub fn run(ctx: &Ctx) -> Report {
   let mut report = Report::new(
-    "complete enumeration with real pipes: {create -o -, create to file, link, show --json, show, verify, announce (loopback tracker), piece-length, completions, five kinds of usage error (unknown flag, no subcommand, `torrent` alone, missing value, bad value), --version} x success/failure x --quiet x --color {auto,always,never} \
+    "complete enumeration with real pipes: {create -o -, create to file, create --open and link --open (a talkative launcher first in PATH), link, show --json, show, verify, announce (loopback tracker; two peers, no peers), piece-length, completions, five kinds of usage error (unknown flag, no subcommand, `torrent` alone, missing value, bad value), --version} x success/failure x --quiet x --color {auto,always,never} \
      x --terminal x {NO_COLOR, TERM=dumb, TERM=xterm}; stdout compared byte-for-byte with the expected payload, stderr emptiness, escape sequences, exit status; non-trivial = any flag set or failure; distinct by configuration",
   );
   report.exhaustive = ctx.replay.is_none();
   report.correspondences.push("C18.streams: stderr activity / stdout styling of the real binary = Imdlv.Streams.{outStream,errStream}; exit status = exitCode".into());
   let mut cfgs = Vec::new();
-  for scenario in ["create-stdout", "create-file", "link", "show-json", "show", "verify", "announce", "piece-length", "completions", "usage", "usage-no-subcommand", "usage-torrent-alone", "usage-missing-value", "usage-bad-value", "version"] {
+  for scenario in ["create-stdout", "create-file", "create-open", "link", "link-open", "show-json", "show", "verify", "announce", "announce-no-peers", "piece-length", "completions", "usage", "usage-no-subcommand", "usage-torrent-alone", "usage-missing-value", "usage-bad-value", "version"] {
     for fail in [false, true] {
       if fail && (matches!(scenario, "piece-length" | "version") || scenario.starts_with("usage")) {
         continue;
@@ -230,7 +272,7 @@ pub fn run(ctx: &Ctx) -> Report {
           pf = pf.or(Some("show --json did not print exactly one line holding one JSON document".into()));
         }
       }
-      if c.scenario == "link" && (o.stdout_s().lines().count() != 1 || !o.stdout_s().starts_with("magnet:?")) {
+      if c.scenario.starts_with("link") && (o.stdout_s().lines().count() != 1 || !o.stdout_s().starts_with("magnet:?")) {
         pf = pf.or(Some("link did not print exactly one magnet line".into()));
       }
       if c.quiet && !o.stderr.is_empty() {
@@ -267,7 +309,7 @@ pub fn run(ctx: &Ctx) -> Report {
     // commands that write chatter or a diagnostic to stderr
     // usage errors are printed by the status wrapper before --quiet / --color are applied
     let is_usage = c.scenario.starts_with("usage") || (c.scenario == "completions" && c.fail);
-    let writes_err = (matches!(c.scenario, "create-stdout" | "create-file" | "verify") || !success) && !is_usage;
+    let writes_err = (matches!(c.scenario, "create-stdout" | "create-file" | "create-open" | "verify") || !success) && !is_usage;
     if writes_err && !c.scenario.starts_with("usage") && (o.stderr.is_empty() == err_active) {
       md = Some(format!("stderr {} bytes, model err.active={err_active}", o.stderr.len()));
     }
